@@ -167,12 +167,31 @@ pub fn run(args: &[String]) {
     (10e-6, 65e-6, Apodization::Interpolate(vec![0.25, 0.5, 0.625, 0.5, 0.25])),
     (10e-6, 25e-6, Apodization::Interpolate(vec![1., 0.5, 1.])),
     (8e-6, 82e-6, Apodization::Interpolate(vec![0.125, 0.75, 0.375])),
+    // window values in [-1, 1] that are NEGATIVE at some domain centres (the domain-fraction clause covers |a| <= 1)
+    (10e-6, 205e-6, Apodization::Cosine(0.5)),
+    (10e-6, 315e-6, Apodization::Bartlett(0.6)),
+    (7e-6, 150e-6, Apodization::Welch(0.75)),
+    (12e-6, 250e-6, Apodization::Blackman(0.5)),
+    (10e-6, 175e-6, Apodization::Interpolate(vec![-1., -0.5, 0.25, 1., 0.5, -0.25, -0.75])),
+    (9e-6, 100e-6, Apodization::Interpolate(vec![-0.2, 0.8, -0.6])),
   ];
-  for _ in 0..n {
+  for j in 0..n {
     let nd = (rng.log_range(1., max_domains as f64)).floor();
     let period = rng.log_range(2e-6, 80e-6);
     let l = period * (nd - rng.range(0.02, 0.98)).max(0.3);
-    cases.push((period, l, random_apod(&mut rng, false)));
+    let ap = match j % 4 {
+      0 => match rng.below(4) {
+        0 => Apodization::Cosine(rng.range(0.5, 1.)),
+        1 => Apodization::Bartlett(rng.range(0.5, 1.)),
+        2 => Apodization::Welch(rng.range(0.72, 1.)),
+        _ => {
+          let m = 2 + rng.below(9);
+          Apodization::Interpolate((0..m).map(|_| (rng.range(-1., 1.) * 64.).round() / 64.).collect())
+        }
+      },
+      _ => random_apod(&mut rng, false),
+    };
+    cases.push((period, l, ap));
   }
   for (period, l, ap) in cases {
     let signed = if rng.coin() { period } else { -period };
@@ -240,6 +259,42 @@ pub fn run(args: &[String]) {
     emit(json!({"kind": "dom", "period": fx(signed), "L": fx(l), "ap": apod_json(&ap), "n": nd, "len_domains": doms.len(),
       "len_lengths": lens.len(), "entries": entries, "all_sum_ok": all_sum_ok, "all_range_ok": all_range_ok, "flips": flips,
       "stored_period": fx(match &pp { PeriodicPoling::On { period, .. } => *(*period / M), _ => f64::NAN })}));
+  }
+  // ---- count clause next to integer ratios: L = k * period * (1 +- e)
+  for period in [10e-6, 46.5e-6, 7.3e-6] {
+    for k in [1usize, 7, 100, 12345] {
+      for e in [3e-9, 1e-7, 3e-7, 9e-7, 0.] {
+        for sgn in [1., -1.] {
+          let l = (k as f64) * period * (1. + sgn * e);
+          let pp = PeriodicPoling::new(period * M, Apodization::Off);
+          emit(json!({"kind": "count", "period": fx(period), "L": fx(l), "k": k, "e": fx(sgn * e), "n": pp.num_domains(l * M)}));
+        }
+      }
+    }
+  }
+  // ---- whole domain lists (thorough tier): every entry, for entrywise comparison with the generated poling_domains in Coq
+  let nfull = arg_u64(args, 3, 0) as usize;
+  // short lists first: under a time budget they are the ones that are always completed
+  let full_cases: Vec<(usize, f64, Apodization)> = vec![
+    (1_000, 19e-6, Apodization::Bartlett(2.)),
+    (2_048, 46.5e-6, Apodization::Hamming(1.)),
+    (1_001, 12e-6, Apodization::Interpolate(vec![0.125, 0.5, 0.75, 1., 0.875, 1., 0.625, 0.25, 0.0625])),
+    (100_000, 5e-6, Apodization::Gaussian { fwhm: 0.2 * M }),
+    (30_011, 7.25e-6, Apodization::Blackman(1.5)),
+    (4_999, 9.5e-6, Apodization::Cosine(1.)),
+  ];
+  for (n, period, ap) in full_cases.into_iter().take(nfull) {
+    let l = period * (n as f64 - 0.5);
+    let pp = PeriodicPoling::new(period * M, ap.clone());
+    let nd = pp.num_domains(l * M);
+    let pp2 = pp.clone();
+    match guarded(move || pp2.poling_domains(l * M)) {
+      Ok(d) => {
+        let flat: Vec<f64> = d.iter().flat_map(|e| [e.0, e.1]).collect();
+        emit(json!({"kind": "dom_full", "period": fx(period), "L": fx(l), "ap": apod_json(&ap), "n": nd, "pairs": fxs(&flat)}));
+      }
+      Err(e) => emit(json!({"kind": "dom_panic", "period": fx(period), "L": fx(l), "ap": apod_json(&ap), "msg": e})),
+    }
   }
   emit(json!({"kind": "dom_off", "n": PeriodicPoling::Off.num_domains(1e-3 * M), "len_domains": PeriodicPoling::Off.poling_domains(1e-3 * M).len(),
     "len_lengths": PeriodicPoling::Off.poling_domain_lengths(1e-3 * M).len()}));
